@@ -85,6 +85,8 @@ type predCtx struct {
 	m        *core.Model
 	f        *core.Func
 	maskPars map[*types.Var]string // mask parameter -> "P0", "P1"
+	// maskFields: struct parameter -> its mask field -> "P0", "P1"
+	maskFields map[*types.Var]map[*types.Var]string
 	obsVar   *types.Var            // loop variable over observers
 	evtParam *types.Var
 	fail     string
@@ -174,6 +176,13 @@ func (pc *predCtx) operand(e ast.Expr) (string, string) {
 		}
 	case *ast.SelectorExpr:
 		if fld := m.FieldOf(x); fld != nil {
+			if id := identOf(x.X); id != nil {
+				if pv, ok := m.Info.ObjectOf(id).(*types.Var); ok {
+					if name, ok := pc.maskFields[pv][fld]; ok {
+						return name, ""
+					}
+				}
+			}
 			key := m.FieldKey(fld)
 			if pc.isObs(x.X) {
 				switch key {
@@ -214,6 +223,12 @@ func (pc *predCtx) eventIndex(e ast.Expr) string {
 	}
 	if id, ok := ast.Unparen(e).(*ast.Ident); ok && pc.evtParam != nil && pc.m.Info.ObjectOf(id) == pc.evtParam {
 		return "evt"
+	}
+	// the expression that a local standing for the event type names (evt := event.eventType; ... observers[event.eventType])
+	if pc.evtParam != nil && pc.f != nil {
+		if ds := localDefsOf(pc.m, pc.f, pc.evtParam); len(ds) == 1 && pc.m.ExprString(ds[0]) == pc.m.ExprString(e) {
+			return "evt"
+		}
 	}
 	return "?" + pc.m.ExprString(e)
 }
@@ -381,6 +396,21 @@ func extractFire(c *core.Ctx, a *Anchors, f *core.Func) *firePred {
 			pc.maskPars[p] = fmt.Sprintf("P%d", fp.masks)
 			fp.masks++
 		}
+		// mask parameters bundled in a small struct: its mask fields take the parameter positions, in field order
+		if st, ok := p.Type().Underlying().(*types.Struct); ok && core.NamedName(p.Type()) != "Event" {
+			for j := 0; j < st.NumFields(); j++ {
+				if isMaskPtr(st.Field(j).Type()) {
+					if pc.maskFields == nil {
+						pc.maskFields = map[*types.Var]map[*types.Var]string{}
+					}
+					if pc.maskFields[p] == nil {
+						pc.maskFields[p] = map[*types.Var]string{}
+					}
+					pc.maskFields[p][st.Field(j).Origin()] = fmt.Sprintf("P%d", fp.masks)
+					fp.masks++
+				}
+			}
+		}
 		if core.NamedName(p.Type()) == "EventType" {
 			pc.evtParam = p
 		}
@@ -423,26 +453,18 @@ func extractFire(c *core.Ctx, a *Anchors, f *core.Func) *firePred {
 		}
 	}
 	// locate the loop over observers (anywhere in the body): it ranges over m.observers[E] or a local defined from it
-	var loop *ast.RangeStmt
+	var loop ast.Stmt
+	var loopBody *ast.BlockStmt
 	loops := 0
 	core.InspectNoLits(f.Body, func(n ast.Node) bool {
-		rs, ok := n.(*ast.RangeStmt)
+		src, body, ok := elementLoop(m, n)
 		if !ok {
 			return true
 		}
-		rangeX := ast.Unparen(rs.X)
-		if id, ok := rangeX.(*ast.Ident); ok {
-			if v, ok := m.Info.ObjectOf(id).(*types.Var); ok {
-				ds := localDefsOf(m, f, v)
-				if len(ds) == 1 {
-					rangeX = ast.Unparen(ds[0])
-				}
-			}
-		}
-		if ix, ok := rangeX.(*ast.IndexExpr); ok {
+		if ix, ok := ast.Unparen(src).(*ast.IndexExpr); ok {
 			if sel, ok := ast.Unparen(ix.X).(*ast.SelectorExpr); ok {
 				if fld := m.FieldOf(sel); fld != nil && m.FieldKey(fld) == "observerManager.observers" {
-					loop = rs
+					loop, loopBody = n.(ast.Stmt), body
 					loops++
 					fp.evt = pc.eventIndex(ix.Index)
 				}
@@ -451,11 +473,27 @@ func extractFire(c *core.Ctx, a *Anchors, f *core.Func) *firePred {
 		return true
 	})
 	if loop == nil || loops != 1 {
-		fp.fail = fmt.Sprintf("%d range loops over observerManager.observers[...] (want exactly one)", loops)
+		fp.fail = fmt.Sprintf("%d loops over observerManager.observers[...] (want exactly one)", loops)
 		return fp
 	}
-	if id, ok := loop.Value.(*ast.Ident); ok {
-		pc.obsVar, _ = m.Info.ObjectOf(id).(*types.Var)
+	// the observer of the iteration: the range value, or the local that the body defines from the element
+	if rs, ok := loop.(*ast.RangeStmt); ok {
+		if id, ok := rs.Value.(*ast.Ident); ok {
+			pc.obsVar, _ = m.Info.ObjectOf(id).(*types.Var)
+		}
+	}
+	if pc.obsVar == nil {
+		for _, st := range loopBody.List {
+			as, ok := st.(*ast.AssignStmt)
+			if !ok || as.Tok != token.DEFINE || len(as.Lhs) != 1 || len(as.Rhs) != 1 {
+				continue
+			}
+			if _, isIx := ast.Unparen(as.Rhs[0]).(*ast.IndexExpr); isIx && core.NamedName(m.Info.TypeOf(as.Rhs[0])) == "observerData" {
+				if id := identOf(as.Lhs[0]); id != nil {
+					pc.obsVar, _ = m.Info.ObjectOf(id).(*types.Var)
+				}
+			}
+		}
 	}
 	// Early-outs: the conditions under which the loop is not reached. Computed from the paths to the loop statement,
 	// so `if c { return }` chains, nesting under `if earlyOut`, merged or split conditions and a loop wrapped in a
@@ -481,7 +519,7 @@ func extractFire(c *core.Ctx, a *Anchors, f *core.Func) *firePred {
 	// Per-observer skips: the conditions under which the callback is not reached inside one iteration.
 	var cbStmt ast.Stmt
 	cbs := 0
-	ast.Inspect(loop.Body, func(n ast.Node) bool {
+	ast.Inspect(loopBody, func(n ast.Node) bool {
 		if es, ok := n.(*ast.ExprStmt); ok {
 			if call, ok := es.X.(*ast.CallExpr); ok {
 				if sel, ok := ast.Unparen(call.Fun).(*ast.SelectorExpr); ok {
@@ -502,7 +540,7 @@ func extractFire(c *core.Ctx, a *Anchors, f *core.Func) *firePred {
 		br, ok := st.(*ast.BranchStmt)
 		return ok && br.Tok == token.CONTINUE
 	}
-	found, positives, exits, why = reachConds(loop.Body.List, cbStmt, isSkip)
+	found, positives, exits, why = reachConds(loopBody.List, cbStmt, isSkip)
 	if !found {
 		fp.fail = "cannot determine the paths to the callback: " + why
 		return fp
@@ -1501,10 +1539,38 @@ func c08r4(c *core.Ctx) {
 						}
 					}
 				}
-			case *ast.RangeStmt:
-				if ix, ok := ast.Unparen(x.X).(*ast.IndexExpr); !ok || fieldOfSel(ix.X) != "observerManager.observers" {
+			case *ast.RangeStmt, *ast.ForStmt:
+				var loopX ast.Expr
+				var xBody *ast.BlockStmt
+				if rs, isR := st.(*ast.RangeStmt); isR {
+					loopX, xBody = rs.X, rs.Body
+				} else if bound, body, isC := countLoop(m, st); isC {
+					if call, isL := ast.Unparen(m.StripConv(bound)).(*ast.CallExpr); isL && m.IsBuiltin(call, "len") && len(call.Args) == 1 {
+						loopX, xBody = call.Args[0], body
+					}
+				}
+				if loopX == nil {
+					continue
+				}
+				// a local that every definition takes from the per-event slices
+				if id := identOf(loopX); id != nil {
+					if v, isV := m.Info.ObjectOf(id).(*types.Var); isV && !v.IsField() {
+						if ds := localDefsOf(m, rem, v); len(ds) > 0 {
+							all := true
+							for _, d := range ds {
+								if ix, ok := ast.Unparen(d).(*ast.IndexExpr); !ok || fieldOfSel(ix.X) != "observerManager.observers" {
+									all = false
+								}
+							}
+							if all {
+								loopX = ds[0]
+							}
+						}
+					}
+				}
+				if ix, ok := ast.Unparen(loopX).(*ast.IndexExpr); !ok || fieldOfSel(ix.X) != "observerManager.observers" {
 					// or the very slice that the shortening store has just put there
-					id := identOf(x.X)
+					id := identOf(loopX)
 					sid := identOf(flat[shortIdx].(*ast.AssignStmt).Rhs[0])
 					if id == nil || sid == nil || m.Info.ObjectOf(id) != m.Info.ObjectOf(sid) || len(flat[shortIdx].(*ast.AssignStmt).Rhs) != 1 {
 						continue
@@ -1512,7 +1578,7 @@ func c08r4(c *core.Ctx) {
 				}
 				// body: if !obs.hasX { anyNoX = true; break }; acc.OrI(&obs.xMask)
 				sawWild, sawOr := false, false
-				ast.Inspect(x.Body, func(y ast.Node) bool {
+				ast.Inspect(xBody, func(y ast.Node) bool {
 					switch z := y.(type) {
 					case *ast.IfStmt:
 						if u, ok := ast.Unparen(z.Cond).(*ast.UnaryExpr); ok && u.Op == token.NOT && fieldOfSel(u.X) == pair[0] {
